@@ -15,11 +15,13 @@ def check(run):
     if tv == 0:
         raise Inconclusive('vacuity twin found nothing')
     records = []
-    tl = 6 if thorough else 3
+    tl = 6 if thorough else 4
     plans = [('run, one buffer', {'entry': 'run', 'tail': tl}), ('process N=32, one byte per read', {'entry': 'process', 'chunk': 1, 'tail': tl}),
              ('process N=32, whole stream per read', {'entry': 'process', 'chunk': 32, 'tail': 3})]
-    if thorough:
-        plans += [(f'process N=32, {c} bytes per read', {'entry': 'process', 'chunk': c, 'tail': 4}) for c in (2, 3, 5, 7)]
+    plans += [(f'process N=32, {c} bytes per read', {'entry': 'process', 'chunk': c, 'tail': 4 if thorough else 2}) for c in (2, 3, 5, 7)]
+    plans += [('two faulty messages in a row, run, one buffer', {'entry': 'run', 'tail': 1, 'double': True}),
+              ('two faulty messages in a row, process N=32, one byte per read', {'entry': 'process', 'chunk': 1, 'tail': 1, 'double': True}),
+              ('two faulty messages in a row, process N=32, 5 bytes per read', {'entry': 'process', 'chunk': 5, 'tail': 1, 'double': True})]
     for name, params in plans:
         st = run.explore('streams [":X\\n"] faulty-message ":C;:A:Q?\\n", fault kind x position x shape, ' + name, SPEC + (params,), 600)
         records.extend(st['records'])
@@ -40,7 +42,8 @@ def check(run):
     cov['bounds'] = {'device': 'T1', 'fault_kinds': list(per_kind), 'symbolic': 'the offending byte (all non-header, non-separator values), the undefined mnemonic letter (any undeclared letter, either case), '
                      'the out-of-range numeral (all 3-digit values > 255), the handler error number (all i16)', 'message_shapes': '[F], [v;F], [F;v], [v;F;v], faulty unit absolute or relative to A; with and without a preceding message; followed by the relative message "C;A:Q?"; '
                      f'parse-level faults are followed by a tail of 0..{tl} arbitrary bytes (all values but LF)',
-                     'outside': 'several faulty messages in one stream; faults inside string/block payloads; trees other than T1'}
+                     'faults_in_common_commands': '*R?  *Q  *R 1', 'two_faulty_messages': 'a second faulty message (7 kinds) right behind the first (8 kinds x 4 shapes)',
+                     'outside': 'more than two faulty messages in one stream; faults inside string/block payloads; trees other than T1'}
     run.evidence['assumptions'] = ['admissible outcomes: units before the fault, (the handler itself for a handler error), exactly one error, then all or none of the units after it; '
                                    'every other message as if sent alone; the only response is that of the last message']
     return {'violations': [dict(v, property='C06') for _, v in sorted(viol.items())], 'exhaustive': True}
